@@ -249,18 +249,23 @@ def build(repo, native, tier, seed, log=None):
     mods = mapper.MODS
     seen = set()
 
-    def add_spec(name, maps, N, depth, alphabet=None, note=''):
+    def add_spec(name, maps, N, depth, alphabet=None, note='', no_foreign=False):
         key = (repr(maps), tuple(alphabet) if alphabet else None, N)
         if key in seen:
             return
         seen.add(key)
-        specs.append(Spec(name, [dict(m) for m in maps], N=N, depth=depth, alphabet=alphabet, note=note))
+        specs.append(Spec(name, [dict(m) for m in maps], N=N, depth=depth, alphabet=alphabet, note=note, no_foreign=no_foreign))
 
     for i, maps in enumerate(test_layouts(repo)):
         nkeys = len(distinct_keys(maps))
         add_spec('test/%d' % i, maps, N_small if nkeys <= 8 else (2 if quick else 3), D, note='unit-test layout')
     for name, maps in named_templates().items():
         add_spec('template/' + name, maps, N_small if len(maps) <= 3 else (3 if quick else 4), D, note='symbolic template')
+    # four keys held: three chords sharing an output modifier (the shape of the fixed C19 defect, known_findings.json)
+    deep = [dict(frm=K('$a0'), to=[]), dict(frm=K('$a0', '$a1'), to=K('LEFTSHIFT', '$a4')),
+            dict(frm=K('$a0', '$a2'), to=K('LEFTSHIFT', '$a5')), dict(frm=K('$a0', '$a3'), to=K('$a4'))]
+    add_spec('template/three-chords-shared-modifier/N4', deep, 4, max(D, 20), alphabet=K('$a0', '$a1', '$a2', '$a3'),
+             note='symbolic template, four keys held, event keys restricted to the four trigger keys', no_foreign=quick)
     nrand = 8 if quick else 40
     for i in range(nrand):
         nm = rng.choice([1, 2, 2]) if quick else rng.choice([1, 2, 2, 3, 3])
